@@ -45,6 +45,14 @@ def _extract_exec_command(bind_value: str) -> str | None:
     return None
 
 
+def _count_exec_actions(bind_value: str) -> int:
+    """Count the execute(...)/execute:... style actions spelled in a bind value."""
+    return sum(
+        bind_value.count(f"{action}(") + bind_value.count(f"{action}:")
+        for action in EXEC_BIND_ACTIONS
+    )
+
+
 def _has_exec_bind_action(bind_value: str) -> bool:
     """Check if a bind value contains execute/execute-silent/become actions."""
     for action in EXEC_BIND_ACTIONS:
@@ -84,6 +92,9 @@ def classify(ctx: HandlerContext) -> Classification:
             if _has_exec_bind_action(bind_value):
                 if OTHER_DELIM_PATTERN.search(bind_value):
                     # A delimiter form this handler does not take apart
+                    return Classification("ask", description=f"{base} --bind")
+                if _count_exec_actions(bind_value) > 1:
+                    # Several actions in one bind string: only one could be extracted
                     return Classification("ask", description=f"{base} --bind")
                 inner_cmd = _extract_exec_command(bind_value)
                 if inner_cmd:
